@@ -56,9 +56,15 @@ class StmtMixin:
             # the state the contract talks about and to end normally (the exceptional continuation is
             # covered where a property asks for it, see C09)
             self.lib.use("generator under contract: at `yield` the with-body runs; it is assumed effect-free and to end normally")
+            outs = []
+            if self.contract is not None and getattr(self.contract, "yield_raises", False):
+                # contextlib throws the with-body's exception at the yield
+                exc_state = st.fork()
+                exc_state.locals["__body_raised__"] = self.const_val(True)
+                outs.append((exc_state, ("raise", Exc("Exception", "raised by the with-body", node.lineno))))
             if node.value.value is not None:
-                return self._lift(self.ev(node.value.value, st), lambda s, v: None)
-            return [(st, NORMAL)]
+                return outs + self._lift(self.ev(node.value.value, st), lambda s, v: None)
+            return outs + [(st, NORMAL)]
         return self._lift(self.ev(node.value, st), lambda s, v: None)
 
     def st_Pass(self, node, st):
